@@ -425,20 +425,66 @@ Proof.
       * apply norm_ns_dec.
 Qed.
 
+(* the specification-derived decoder accepts the same frame and reads the same fields
+   (namespace verbatim, payload still carrying the placeholders, attachment count) *)
+Theorem interop_spec_decode_pointwise loads t data ns id p f atts :
+  wf_input t data ns id = true ->
+  ctor true t data ns id None = Ok p ->
+  encode p = Ok (f, atts) ->
+  (forall s, json_dumps (subst data 0) = Ok s -> loads s = Ok (subst data 0)) ->
+  spec_decode loads f =
+  Ok (mkSpec (promoted t data None) (sns_of ns) id (subst data 0) (N.of_nat (List.length (atts_of atts)))).
+Proof.
+  intros Hwf Hc He Hloads. unfold wf_input in Hwf.
+  repeat rewrite andb_true_iff in Hwf.
+  destruct Hwf as [[[[[[[H0 H4] Hns] Hid] Hd] Hnum] Hl] Hev].
+  apply negb_true_iff in Hnum. apply wf_ns_ok in Hns. apply wf_id_ok in Hid.
+  unfold ctor in Hc. cbn [andb] in Hc. unfold promoted.
+  destruct (has_bytes data) eqn:Hb.
+  - assert (Ht : (t = 2 \/ t = 3)%Z).
+    { unfold EVENT, ACK in Hc. destruct (Z.eqb_spec t 2); [tauto|].
+      destruct (Z.eqb_spec t 3); [tauto|discriminate]. }
+    assert (Hlist : is_list data = true) by (destruct Ht as [-> | ->]; exact Hl).
+    assert (Hp : p = mkPacket (PInt (t + 3)) ns id data).
+    { destruct Ht as [-> | ->]; cbn in Hc; inversion Hc; reflexivity. }
+    subst p. apply encode_bin in He; [|lia]. destruct He as (js & Ejs & -> & ->). cbn [atts_of].
+    assert (Hsn : is_number (subst data 0) = false) by (destruct data; try discriminate; reflexivity).
+    pose proof (dumps_opt_js_ok _ _ Hsn Ejs) as Hjs.
+    pose proof (loads_js loads _ _ Hsn Ejs Hloads) as Hlj.
+    rewrite (spec_decode_bin loads (Z.to_N (t + 3)) _ ns id js (subst data 0)); [|lia|exact Hns|exact Hid|exact Hjs|exact Hlj].
+    rewrite Z2N.id by lia. reflexivity.
+  - inversion Hc; subst p. apply encode_nonbin in He; [|lia]. destruct He as (js & Ejs & -> & ->).
+    cbn [atts_of List.length N.of_nat].
+    pose proof (nobytes_leaves _ Hb) as Hlv. rewrite (noleaves_subst _ Hlv) in *.
+    pose proof (dumps_opt_js_ok _ _ Hnum Ejs) as Hjs.
+    pose proof (loads_js loads _ _ Hnum Ejs Hloads) as Hlj.
+    rewrite (spec_decode_nonbin loads (Z.to_N t) ns id js data); [|lia|exact Hns|exact Hid|exact Hjs|exact Hlj].
+    rewrite Z2N.id by lia. reflexivity.
+Qed.
+
+(* frames of the specification-derived encoder are read back by the real decoder *)
+Theorem interop_spec_encode_pointwise loads t data ns id p f atts :
+  wf_input t data ns id = true ->
+  ctor true t data ns id None = Ok p ->
+  spec_encode p = Ok (f, atts) ->
+  N.of_nat (List.length (atts_of atts)) < 10000000000 ->
+  (forall s, json_dumps (subst data 0) = Ok s -> loads s = Ok (subst data 0)) ->
+  RT_concl loads t data ns id f (atts_of atts).
+Proof. rewrite <- conformance. apply roundtrip_pointwise. Qed.
+
 (* the same with json.loads as an oracle that inverts the printer on its whole domain *)
 Section RoundTrip.
   Variable loads : str -> Res pv.
   Hypothesis loads_dumps : forall v s, jsonable v = true -> json_dumps v = Ok s -> loads s = Ok v.
 
-  Theorem roundtrip_partial t data ns id p f atts :
+  Lemma oracle_pointwise t data ns id p f atts :
     wf_input t data ns id = true -> floats_ok data = true ->
     ctor true t data ns id None = Ok p ->
     encode p = Ok (f, atts) ->
     N.of_nat (List.length (atts_of atts)) < 10000000000 ->
-    RT_concl loads t data ns id f (atts_of atts).
+    forall s, json_dumps (subst data 0) = Ok s -> loads s = Ok (subst data 0).
   Proof.
-    intros Hwf Hfl Hc He Hcnt. apply (roundtrip_pointwise loads t data ns id p f atts Hwf Hc He Hcnt).
-    intros s Hs. apply loads_dumps; [|exact Hs].
+    intros Hwf Hfl Hc He Hcnt s Hs. apply loads_dumps; [|exact Hs].
     assert (Hd : wf_data data = true).
     { unfold wf_input in Hwf. repeat rewrite andb_true_iff in Hwf. tauto. }
     apply wf_jsonable_subst; [exact Hd|exact Hfl|].
@@ -451,4 +497,205 @@ Section RoundTrip.
       destruct He as (js & _ & _ & ->). cbn [atts_of] in Hcnt. cbn [N.of_nat]. lia.
     - rewrite (nobytes_leaves _ Hb). cbn. lia.
   Qed.
+
+  Theorem roundtrip_partial t data ns id p f atts :
+    wf_input t data ns id = true -> floats_ok data = true ->
+    ctor true t data ns id None = Ok p ->
+    encode p = Ok (f, atts) ->
+    N.of_nat (List.length (atts_of atts)) < 10000000000 ->
+    RT_concl loads t data ns id f (atts_of atts).
+  Proof.
+    intros Hwf Hfl Hc He Hcnt. apply (roundtrip_pointwise loads t data ns id p f atts Hwf Hc He Hcnt).
+    exact (oracle_pointwise t data ns id p f atts Hwf Hfl Hc He Hcnt).
+  Qed.
+
+  Theorem interop_spec_decode t data ns id p f atts :
+    wf_input t data ns id = true -> floats_ok data = true ->
+    ctor true t data ns id None = Ok p ->
+    encode p = Ok (f, atts) ->
+    N.of_nat (List.length (atts_of atts)) < 10000000000 ->
+    spec_decode loads f =
+    Ok (mkSpec (promoted t data None) (sns_of ns) id (subst data 0) (N.of_nat (List.length (atts_of atts)))).
+  Proof.
+    intros Hwf Hfl Hc He Hcnt. apply (interop_spec_decode_pointwise loads t data ns id p f atts Hwf Hc He).
+    exact (oracle_pointwise t data ns id p f atts Hwf Hfl Hc He Hcnt).
+  Qed.
+
+  Theorem interop_spec_encode t data ns id p f atts :
+    wf_input t data ns id = true -> floats_ok data = true ->
+    ctor true t data ns id None = Ok p ->
+    spec_encode p = Ok (f, atts) ->
+    N.of_nat (List.length (atts_of atts)) < 10000000000 ->
+    RT_concl loads t data ns id f (atts_of atts).
+  Proof. rewrite <- conformance. apply roundtrip_partial. Qed.
 End RoundTrip.
+
+(* ---------- the stated domain boundary: a top-level number cannot be carried ---------- *)
+Theorem number_payload_refuted : forall loads,
+  exists p, ctor true CONNECT_ERROR (PInt 5) None None None = Ok p /\
+            encode p = Ok (s2l "45", None) /\
+            decode_str loads (s2l "45") = Ok (mkR (mkPacket (PInt 4) None (Some 5%Z) PNone) 0 []) /\
+            spec_decode loads (s2l "45") = Ok (mkSpec 4 (s2l "/") (Some 5%Z) PNone 0).
+Proof. intro loads. eexists. repeat split; vm_compute; reflexivity. Qed.
+
+(* ---------- the encoder never fails on the property's domain ---------- *)
+Lemma json_dumps_subst_total : forall v, wf_data v = true -> forall n,
+  exists s, json_dumps (subst v n) = Ok s.
+Proof.
+  induction v as [| |z| | | |l IH|l IH|kv IH|o] using pv_ind'; intros H n; try discriminate;
+    try (eexists; reflexivity).
+  - destruct b; eexists; reflexivity.
+  - rewrite wf_PList in H. rewrite subst_PList, json_dumps_PList.
+    assert (Hl : forall first, exists s, dumps_list (subst_list l n) first = Ok s).
+    { revert n. induction IH as [|x l Hx Hl IHl]; intros n first; [eexists; reflexivity|].
+      cbn [wf_list] in H. fold wf_list in H. apply andb_true_iff in H as [H1 H2].
+      cbn [subst_list dumps_list]. fold subst_list dumps_list.
+      destruct (Hx H1 n) as [sx ->]. destruct (IHl H2 (n + List.length (leaves x))%nat false) as [sr ->].
+      eexists; reflexivity. }
+    destruct (Hl true) as [s ->]. eexists; reflexivity.
+  - rewrite wf_PDict in H. rewrite subst_PDict, json_dumps_PDict.
+    apply andb_true_iff in H as [H H3]. apply andb_true_iff in H as [_ Hk].
+    assert (Hl : forall first, exists s, dumps_dict (subst_dict kv n) first = Ok s).
+    { revert n. induction IH as [|[k x] kv [_ Hx] Hl IHl]; intros n first; [eexists; reflexivity|].
+      cbn [snd] in Hx. cbn [wf_dict] in H3. fold wf_dict in H3. apply andb_true_iff in H3 as [H1 H2].
+      cbn [map fst forallb] in Hk. apply andb_true_iff in Hk as [Hk1 Hk2].
+      cbn [subst_dict dumps_dict]. fold subst_dict dumps_dict.
+      destruct k; try discriminate Hk1. cbn [json_key bind].
+      destruct (Hx H1 n) as [sx ->]. destruct (IHl Hk2 H2 (n + List.length (leaves x))%nat false) as [sr ->].
+      eexists; reflexivity. }
+    destruct (Hl true) as [s ->]. eexists; reflexivity.
+Qed.
+
+Lemma dumps_opt_total v n : wf_data v = true -> exists s, dumps_opt (subst v n) = Ok s.
+Proof.
+  intro H. destruct (json_dumps_subst_total v H n) as [s Hs]. unfold dumps_opt.
+  destruct (subst v n); try (exists s; exact Hs). eexists; reflexivity.
+Qed.
+
+(* constructor and encoder succeed on the whole domain; the attachments are the bytes leaves *)
+Theorem encode_total t data ns id : wf_input t data ns id = true ->
+  (has_bytes data = true -> (t = 2 \/ t = 3)%Z) ->
+  exists p f atts, ctor true t data ns id None = Ok p /\ encode p = Ok (f, atts) /\
+                   atts_of atts = leaves data.
+Proof.
+  intros Hwf Hbin. assert (Hd : wf_data data = true).
+  { unfold wf_input in Hwf. repeat rewrite andb_true_iff in Hwf. tauto. }
+  destruct (dumps_opt_total data 0 Hd) as [js Hjs].
+  unfold ctor. cbn [andb].
+  destruct (has_bytes data) eqn:Hb.
+  - assert (Hc : exists t', (t' = 5 \/ t' = 6)%Z /\
+                 (if (t =? EVENT)%Z then Ok (mkPacket (PInt BINARY_EVENT) ns id data)
+                  else if (t =? ACK)%Z then Ok (mkPacket (PInt BINARY_ACK) ns id data)
+                  else Err ValueError) = Ok (mkPacket (PInt t') ns id data)).
+    { destruct (Hbin eq_refl) as [-> | ->]; [exists 5%Z|exists 6%Z]; split; try lia; reflexivity. }
+    destruct Hc as (t' & Ht' & ->). eexists _, _, _. split; [reflexivity|].
+    unfold encode. cbn [ptype pns pid pdata].
+    assert (E : ((t' =? BINARY_EVENT)%Z || (t' =? BINARY_ACK)%Z) = true) by (unfold BINARY_EVENT, BINARY_ACK; lia).
+    rewrite E, decon_nil.
+    match goal with |- context [bind ?X _] => change X with (dumps_opt (subst data 0)) end.
+    rewrite Hjs. cbn [bind]. split; reflexivity.
+  - assert (E : ((t =? BINARY_EVENT)%Z || (t =? BINARY_ACK)%Z) = false).
+    { unfold wf_input in Hwf. repeat rewrite andb_true_iff in Hwf. unfold BINARY_EVENT, BINARY_ACK. lia. }
+    rewrite (noleaves_subst _ (nobytes_leaves _ Hb)) in Hjs.
+    eexists _, _, _. split; [reflexivity|].
+    unfold encode. cbn [ptype pns pid pdata]. rewrite E.
+    match goal with |- context [bind ?X _] => change X with (dumps_opt data) end.
+    rewrite Hjs. cbn [bind].
+    split; [reflexivity|]. rewrite (nobytes_leaves _ Hb). reflexivity.
+Qed.
+
+(* the round trip with no hypothesis about the encoder's success: on the whole domain the
+   constructor and the encoder succeed, and what they produce decodes back *)
+Theorem roundtrip_total_pointwise loads t data ns id :
+  wf_input t data ns id = true ->
+  (has_bytes data = true -> (t = 2 \/ t = 3)%Z) ->
+  N.of_nat (List.length (leaves data)) < 10000000000 ->
+  (forall s, json_dumps (subst data 0) = Ok s -> loads s = Ok (subst data 0)) ->
+  exists p f atts, ctor true t data ns id None = Ok p /\ encode p = Ok (f, atts) /\
+                   atts_of atts = leaves data /\
+                   RT_concl loads t data ns id f (leaves data).
+Proof.
+  intros Hwf Hbin Hcnt Hl. destruct (encode_total t data ns id Hwf Hbin) as (p & f & atts & Hc & He & Ha).
+  exists p, f, atts. repeat split; try assumption. rewrite <- Ha.
+  apply (roundtrip_pointwise loads t data ns id p f atts Hwf Hc He); [rewrite Ha; exact Hcnt|exact Hl].
+Qed.
+
+(* ---------- non-vacuity: a concrete packet satisfying every hypothesis ---------- *)
+(* EVENT in namespace "/chat-1?x=1" (with a query string), id 12, nested payload with two bytes
+   leaves, a dict, a negative int, a float and null *)
+Definition ex_data : pv :=
+  PList [PStr (s2l "ev"); PBytes [1; 2];
+         PDict [(PStr (s2l "k"), PList [PInt (-3); PBytes [255]]); (PStr (s2l "f"), PFloat (s2l "1.5"))];
+         PNone].
+Definition ex_ns : option str := Some (s2l "/chat-1?x=1").
+Definition ex_id : option Z := Some 12%Z.
+Definition ex_p : packet := mkPacket (PInt 5) ex_ns ex_id ex_data.
+Definition ex_f : str :=
+  s2l "52-/chat-1?x=1,12[""ev"",{""_placeholder"":true,""num"":0},{""k"":[-3,{""_placeholder"":true,""num"":1}],""f"":1.5},null]".
+Definition ex_atts : list str := [[1; 2]; [255]].
+(* a one-entry table for json.loads *)
+Definition ex_loads : str -> Res pv :=
+  table_loads [(skipn 17 ex_f, Ok (subst ex_data 0))].
+
+Example ex_hypotheses :
+  wf_input 2 ex_data ex_ns ex_id = true /\ floats_ok ex_data = true /\
+  ctor true 2 ex_data ex_ns ex_id None = Ok ex_p /\
+  encode ex_p = Ok (ex_f, Some ex_atts) /\
+  N.of_nat (List.length (atts_of (Some ex_atts))) < 10000000000 /\
+  (forall s, json_dumps (subst ex_data 0) = Ok s -> ex_loads s = Ok (subst ex_data 0)).
+Proof.
+  repeat split; try (vm_compute; reflexivity).
+  intros s H. vm_compute in H. inversion H; subst. vm_compute. reflexivity.
+Qed.
+
+(* the conclusions of the round trip and of both interop theorems, evaluated *)
+Example ex_roundtrip :
+  (r <- decode ex_loads (PStr ex_f) ;;
+   '(r', flags) <- add_all r (map PBytes ex_atts) ;;
+   Ok (rp r', rcount r, flags,
+       rt_ok 2 ex_data ex_ns ex_id None (map PBytes ex_atts) (Ok (rp r', rcount r, flags))))
+  = Ok (mkPacket (PInt 5) (Some (s2l "/chat-1")) (Some 12%Z) ex_data, 2, [false; true], true).
+Proof. vm_compute. reflexivity. Qed.
+
+Example ex_roundtrip_thm : RT_concl ex_loads 2 ex_data ex_ns ex_id ex_f ex_atts.
+Proof.
+  destruct ex_hypotheses as (H1 & _ & H2 & H3 & H4 & H5).
+  exact (roundtrip_pointwise ex_loads 2 ex_data ex_ns ex_id ex_p ex_f (Some ex_atts) H1 H2 H3 H4 H5).
+Qed.
+
+Example ex_conformance : spec_encode ex_p = Ok (ex_f, Some ex_atts).
+Proof. vm_compute. reflexivity. Qed.
+
+Example ex_spec_decode :
+  spec_decode ex_loads ex_f = Ok (mkSpec 5 (s2l "/chat-1?x=1") (Some 12%Z) (subst ex_data 0) 2).
+Proof. vm_compute. reflexivity. Qed.
+
+Example ex_recon :
+  wf_data ex_data = true /\
+  recon (fst (decon ex_data [])) (map PBytes (snd (decon ex_data []))) = Ok ex_data.
+Proof. split; vm_compute; reflexivity. Qed.
+
+Example ex_binary_only : has_bytes ex_data = true /\ ctor true 4 ex_data ex_ns ex_id None = Err ValueError.
+Proof. split; vm_compute; reflexivity. Qed.
+
+(* a non-binary packet: default namespace, id with leading structure "10" + JSON text starting with '[' *)
+Example ex_nonbinary :
+  let d := PList [PStr (s2l "a-1,/2"); PInt 7] in
+  let loads := table_loads [(s2l "[""a-1,/2"",7]", Ok d)] in
+  wf_input 3 d (Some (s2l "/")) (Some 10%Z) = true /\
+  (p <- ctor true 3 d (Some (s2l "/")) (Some 10%Z) None ;; encode p) = Ok (s2l "310[""a-1,/2"",7]", None) /\
+  decode loads (PStr (s2l "310[""a-1,/2"",7]")) = Ok (mkR (mkPacket (PInt 3) None (Some 10%Z) d) 0 []).
+Proof. repeat split; vm_compute; reflexivity. Qed.
+
+(* checker soundness is not vacuous: the observation of the example passes rt_ok / enc_ok *)
+Example ex_rt_spec :
+  RT_spec 2 ex_data ex_ns ex_id None (map PBytes ex_atts)
+          (Ok (mkPacket (PInt 5) (Some (s2l "/chat-1")) (Some 12%Z) ex_data, 2, [false; true])).
+Proof. apply rt_ok_sound; vm_compute; reflexivity. Qed.
+Example ex_enc_spec : ENC_spec 2 ex_data ex_ns ex_id (Ok (ex_f, Some ex_atts)).
+Proof. apply enc_ok_sound; vm_compute; reflexivity. Qed.
+
+(* binary reconstruction on the property's domain *)
+Theorem recon_decon_wf v : wf_data v = true ->
+  recon (fst (decon v [])) (map PBytes (snd (decon v []))) = Ok v.
+Proof. intro H. apply recon_decon, wf_ph_free, H. Qed.
